@@ -894,7 +894,14 @@ func countedLoop(fr *frame, h *ssa.BasicBlock, body map[*ssa.BasicBlock]bool) (*
 // loads from non-escaping local cells or package variables that the loop (callees included) does not write.
 func (e *enc) stableBound(fr *frame, v ssa.Value, h *ssa.BasicBlock, body map[*ssa.BasicBlock]bool, keys map[string]bool, allHeap bool) bool {
 	var addr func(a ssa.Value) bool
+	var val func(v ssa.Value, d int) bool
 	addr = func(a ssa.Value) bool {
+		// a field of a read-only external object (go/ast node) reached through a stable pointer never changes
+		if fa, ok := a.(*ssa.FieldAddr); ok {
+			if pt, ok := fa.X.Type().Underlying().(*types.Pointer); ok && e.readOnlyExt(pt.Elem()) {
+				return val(fa.X, 1)
+			}
+		}
 		switch x := a.(type) {
 		case *ssa.Alloc:
 			if allocEscapes(x) {
@@ -919,7 +926,6 @@ func (e *enc) stableBound(fr *frame, v ssa.Value, h *ssa.BasicBlock, body map[*s
 		}
 		return false
 	}
-	var val func(v ssa.Value, d int) bool
 	val = func(v ssa.Value, d int) bool {
 		if d > 8 {
 			return false
